@@ -60,6 +60,9 @@ mod engine_neon;
 mod fwht;
 mod shards;
 
+#[cfg(feature = "verif-hooks")]
+pub(crate) use fwht::{fwht as verif_fwht, verif_fwht_2, verif_fwht_4};
+
 pub mod tables;
 pub mod utils;
 
